@@ -573,10 +573,15 @@ def simulate(spec, progs=True):
                         continue
                     if "___" in nm:
                         parts = nm.split("___")
-                        src, dst = parts[0], parts[1] if len(parts) > 1 else ""
+                        if len(parts) == 2 and parts[1] == "flow":
+                            src = dst = ""
+                            bypar = parts[0]  # 'par:flow' = all transitions driven by that parameter
+                        else:
+                            src, dst = parts[0], parts[1] if len(parts) > 1 else ""
+                            bypar = parts[2] if len(parts) > 2 else ""
                         tot = 0.0
                         for l in links:
-                            if l["pop"] == pop and (not src or l["src"] == src) and (not dst or l["dst"] == dst) and l["key"] in flow:
+                            if l["pop"] == pop and (not src or l["src"] == src) and (not dst or l["dst"] == dst) and (not bypar or l["par"] == bypar) and l["key"] in flow:
                                 f = flow[l["key"]]
                                 tot += math.fsum(f) if isinstance(f, list) else f
                         env[nm] = tot / dt
